@@ -7,6 +7,7 @@ package copysc
 import (
 	"context"
 	"fmt"
+	"net/http"
 	"os"
 	"path/filepath"
 	"runtime"
@@ -118,7 +119,8 @@ const (
 	HostExt   = "ext.example.test"
 	RepoSrc   = "proj/src"
 	RepoTgt   = "proj/tgt"
-	RepoThird = "proj/third" // where a warm-up copy goes (source registry)
+	RepoThird = "proj/third"  // where a warm-up copy goes (source registry)
+	RepoOther = "proj/legacy" // a repository of the source registry whose referrers API answers 404 (warm-up "other-repo-probe")
 	SrcTag    = "v1"
 )
 
@@ -223,7 +225,7 @@ func Gen(t *rapid.T, o GenOptions) Case {
 	c.LayoutNames = rapid.SampledFrom([]int{0, 0, 0, 1, 2, 3, 4, 5}).Draw(t, "layout_names")
 	c.TgtMirror = rapid.IntRange(0, 4).Draw(t, "tgt_mirror") == 0
 	c.Cache = rapid.IntRange(0, 2).Draw(t, "cache") == 0
-	c.Warm = rapid.SampledFrom([]string{"", "", "", "inspect", "prior-copy"}).Draw(t, "warm")
+	c.Warm = rapid.SampledFrom([]string{"", "", "", "inspect", "prior-copy", "other-repo-probe"}).Draw(t, "warm")
 	if o.Cancel && rapid.IntRange(0, 5).Draw(t, "cancel") == 0 {
 		c.CancelAt = rapid.IntRange(1, 40).Draw(t, "cancel_at")
 		c.CancelMid = rapid.Bool().Draw(t, "cancel_mid")
@@ -501,6 +503,27 @@ func (e *Env) warm() {
 				}
 			}
 		}
+	case "other-repo-probe":
+		// the client first asks for referrers in ANOTHER repository of the source registry, one where that API is not
+		// served (a proxy / pull-through project, a repository converted per repository): whatever the client
+		// remembers from it must not change how the copied repository is treated
+		if e.Src.Kind != "reg" {
+			return
+		}
+		h := e.Src.Host
+		if h.Intercept == nil {
+			h.Intercept = func(_ *rm.Model, _ *rm.Host, en *rm.Entry, _ *http.Request) *rm.Resp {
+				if en.Class == "referrers" && en.Repo == RepoOther {
+					return &rm.Resp{Status: 404, Header: http.Header{"Content-Type": {"application/json"}}, Body: []byte(`{"errors":[{"code":"NAME_UNKNOWN","message":"repository name not known to registry"}]}`), TruncateAt: -1}
+				}
+				return nil
+			}
+		}
+		ro, err := ref.New(h.Name + "/" + RepoOther + "@" + e.RootDig)
+		if err != nil {
+			return
+		}
+		_, _ = e.RC.ReferrerList(ctx, ro)
 	case "prior-copy":
 		if e.Src.Kind != "reg" {
 			return
